@@ -67,11 +67,13 @@ func (subsDom) Gen(r *gen.R, tier string, emit func(string)) {
 	for _, n := range names {
 		for _, k := range kinds {
 			for _, own := range [][2][]string{{{"nil"}, {"nil"}}, {{"nil"}, {"1", "a.>"}}, {{"1", "a.b"}, {"nil"}}} {
-				args := []string{"serve2", n, k, "", "R"}
-				args = append(args, own[0]...)
-				args = append(args, "A")
-				args = append(args, own[1]...)
-				emit(wire.Line(args...))
+				for _, op := range []string{"serve2", "serve3"} {
+					args := []string{op, n, k, "", "R"}
+					args = append(args, own[0]...)
+					args = append(args, "A")
+					args = append(args, own[1]...)
+					emit(wire.Line(args...))
+				}
 			}
 		}
 	}
@@ -184,7 +186,7 @@ func (subsDom) Exec(a []string) string {
 		return Safe(func() string { return subsReconnect(a[1] == "T") })
 	}
 	return Safe(func() string {
-		if len(a) < 5 || (a[0] != "serve" && a[0] != "serve2") || a[4] != "R" {
+		if len(a) < 5 || (a[0] != "serve" && a[0] != "serve2" && a[0] != "serve3") || a[4] != "R" {
 			return "bad-op"
 		}
 		name, kinds, queue := a[1], a[2], a[3]
@@ -195,7 +197,19 @@ func (subsDom) Exec(a []string) string {
 		al, anil, _ := parseListArg(rest[1:])
 		s := res.NewService(name)
 		s.SetLogger(nopLogger{})
-		if a[0] == "serve2" {
+		early := a[0] == "serve3"
+		if early {
+			// serve3: the ownership is set before the first of the two runs and not touched again
+			var rr, aa []string
+			if !rnil {
+				rr = append([]string{}, rl...)
+			}
+			if !anil {
+				aa = append([]string{}, al...)
+			}
+			s.SetOwnedResources(rr, aa)
+		}
+		if a[0] == "serve2" || a[0] == "serve3" {
 			// an earlier run of the same service, with nothing but a get handler
 			s.Handle("early", res.GetResource(func(r res.GetRequest) { r.NotFound() }))
 			c0 := recconn.New()
@@ -273,11 +287,11 @@ func (subsDom) Exec(a []string) string {
 		}
 		// "sets the patterns": the last call decides, whatever was set before it - also when it puts a
 		// list back to nil (= the default ownership). Every other line sets stale lists first.
-		stale := (len(kinds)+len(rl)+len(al))%2 == 1
+		stale := (len(kinds)+len(rl)+len(al))%2 == 1 && !early
 		if stale {
 			s.SetOwnedResources([]string{"stale.>"}, []string{"stale.a", "stale.b.*"})
 		}
-		if stale || !(rnil && anil) {
+		if !early && (stale || !(rnil && anil)) {
 			// SetOwnedResources replaces both; nil stays nil
 			var rr, aa []string
 			if !rnil {
